@@ -2,7 +2,7 @@
    minimal window, cells and coordinates intact), nothing else.  The model is the
    code AFTER fixes/C18-trim-nan-exclusion.diff; C18_trim_nan_refuted records what
    the unfixed membership test does. *)
-Require Import Base.Prelude Base.XVal C18.Model C18.Proofs.
+Require Import Base.Prelude Base.XVal C18.Model C18.Proofs C18.ProofsIdem.
 
 (* Each directional scan of _trim/_crop (any cell type, any stop predicate, ANY shape) returns the
    first / last row / column containing a stopping ("kept") cell. *)
@@ -63,6 +63,29 @@ Theorem C18_crop_minimal_window_slice : forall ids rows cols zones values ys xs,
     window_result rows cols (fun y x => In (cell zones y x) ids /\ cell zones y x <> XNaN) values ys xs t b l r out ys' xs'.
 Proof. exact crop_model_spec. Qed.
 Print Assumptions C18_crop_minimal_window_slice.
+
+(* "smallest window" as a fixed point: trimming the trimmed raster (its own shape, cells, coordinates) finds the
+   whole frame and slices nothing away — trim(trim(r)) = trim(r), any shape, any exclusion list incl. NaN. *)
+Theorem C18_trim_idempotent : forall excludes rows cols data ys xs,
+  rect rows cols data -> length ys = rows -> length xs = cols ->
+  (exists y x, 0 <= y < Z.of_nat rows /\ 0 <= x < Z.of_nat cols /\ ~ In (cell data y x) excludes) ->
+  forall t b l r out ys' xs',
+    trim_model excludes rows cols data ys xs = (t, b, l, r, out, ys', xs') ->
+    trim_model excludes (Z.to_nat (b - t + 1)) (Z.to_nat (r - l + 1)) out ys' xs' =
+      (0, b - t, 0, r - l, out, ys', xs').
+Proof. exact trim_idempotent. Qed.
+Print Assumptions C18_trim_idempotent.
+
+(* crop(zones, zones, ids) is a fixed point too: cropping the cropped zones raster by the same ids changes nothing *)
+Theorem C18_crop_self_idempotent : forall ids rows cols zones ys xs,
+  rect rows cols zones -> length ys = rows -> length xs = cols ->
+  (exists y x, 0 <= y < Z.of_nat rows /\ 0 <= x < Z.of_nat cols /\ (In (cell zones y x) ids /\ cell zones y x <> XNaN)) ->
+  forall t b l r out ys' xs',
+    crop_model ids rows cols zones zones ys xs = (t, b, l, r, out, ys', xs') ->
+    crop_model ids (Z.to_nat (b - t + 1)) (Z.to_nat (r - l + 1)) out out ys' xs' =
+      (0, b - t, 0, r - l, out, ys', xs').
+Proof. exact crop_self_idempotent. Qed.
+Print Assumptions C18_crop_self_idempotent.
 
 (* outside the property's premise, recorded: when no cell is kept every scan runs to its last index *)
 Theorem C18_nothing_kept_bounds : forall (T : Type) (stop : T -> bool) (get : Z -> Z -> T) (rows cols : nat),
